@@ -617,7 +617,10 @@ class BaseBackend(CodeGen):
 
         # remove files and directories that have been created during simulation process
         if self.fdir:
-            rmtree(self.fdir)
+            try:
+                rmtree(self.fdir)
+            except FileNotFoundError:
+                pass  # already removed, e.g. by the clear() of another model that wrote to the same directory
         else:
             try:
                 os.remove(f"{self._fname}{self._fend}")
